@@ -23,7 +23,7 @@ Print Assumptions C15_unfixed_refuted.
 
 (* ---- the byte handler is the source's: handleControlCharResponse translated statement by
    statement on this run (gen/decide.go -> GeneratedSkel.telnet_handle_code) ---- *)
-From Scrapli Require Import DecideLang GeneratedSkel Decide.
+From Scrapli Require Import DecideLang GeneratedSkel DecideTel.
 
 (* for every control buffer and every byte (writes succeeding) the translated function changes
    control buffer, data buffer and replies exactly as the model's [handle] *)
@@ -32,3 +32,12 @@ Theorem C15_handle_is_source : forall s c,
 Proof. exact telnet_handle_is_source. Qed.
 
 Print Assumptions C15_handle_is_source.
+
+(* every test that the translated functions of this property make is one the environments of their
+   ties were written for: a test that is new in the source breaks this (an unknown equality would
+   otherwise evaluate to false without notice) *)
+From Scrapli Require Import DecideLang GeneratedSkel DecideTel.
+Theorem C15_source_tests_known :
+  tests_known telnet_handle_code telnet_handle_known = true.
+Proof. exact telnet_handle_tests_known. Qed.
+Print Assumptions C15_source_tests_known.
